@@ -113,7 +113,9 @@ class Interp(object):
         uses_const = bool(consts) and any((isinstance(n, ast.Name) and ('', n.id) in consts and n.id not in senv) or
                                           (isinstance(n, ast.Attribute) and isinstance(n.value, ast.Name) and (n.value.id, n.attr) in consts)
                                           for n in ast.walk(node))
-        if not uses_const and (not senv or not any(isinstance(n, ast.Name) and n.id in senv for n in ast.walk(node))):
+        foldable = (self.key_equals is not None and any(isinstance(n, ast.Dict) for n in ast.walk(node))) or \
+            any(isinstance(n, ast.Call) and isinstance(n.func, ast.Lambda) for n in ast.walk(node))
+        if not uses_const and not foldable and (not senv or not any(isinstance(n, ast.Name) and n.id in senv for n in ast.walk(node))):
             return node
         new = normal._Subst(dict(senv)).visit(normal.clone(node))
         if uses_const:
@@ -132,6 +134,7 @@ class Interp(object):
             new = C().visit(new)
         if self.key_equals is not None:
             new = self._fold_lookups(new, state)
+        new = _beta(new)
         for n in ast.walk(new):
             if not hasattr(n, 'lineno') and isinstance(n, (ast.expr, ast.stmt)):
                 ast.copy_location(n, node)
@@ -318,6 +321,10 @@ class Interp(object):
         if isinstance(node, ast.Compare) and len(node.ops) == 1 and isinstance(node.ops[0], (ast.Is, ast.IsNot, ast.Eq, ast.NotEq)):
             l = self.subst(node.left, state)
             r_ = self.subst(node.comparators[0], state)
+            if isinstance(r_, ast.Constant) and r_.value is None and isinstance(node.ops[0], (ast.Is, ast.IsNot)) and (
+                    isinstance(l, (ast.Lambda, ast.Dict, ast.List, ast.Tuple, ast.Set)) or
+                    (isinstance(l, ast.Name) and l.id in ('int', 'float', 'str', 'bool', 'list', 'dict', 'set', 'tuple'))):
+                return isinstance(node.ops[0], ast.IsNot)
             if isinstance(l, ast.Constant) and isinstance(r_, ast.Constant):
                 same = (l.value is r_.value) if isinstance(node.ops[0], (ast.Is, ast.IsNot)) else (l.value == r_.value and type(l.value) is type(r_.value))
                 return same if isinstance(node.ops[0], (ast.Is, ast.Eq)) else not same
@@ -624,6 +631,24 @@ class Interp(object):
         except _Done as d:
             return d.outcome, trace
         return Outcome('falloff', self.fn, None), trace
+
+
+def _beta(node):
+    '''(lambda a: e)(x) -> e[x/a] when every parameter is used at most once or the argument is a plain name / attribute chain'''
+    if not any(isinstance(n, ast.Call) and isinstance(n.func, ast.Lambda) for n in ast.walk(node)):
+        return node
+
+    class B(ast.NodeTransformer):
+        def visit_Call(self, n):
+            self.generic_visit(n)
+            f = n.func
+            if isinstance(f, ast.Lambda) and not n.keywords and not any(isinstance(a, ast.Starred) for a in n.args):
+                la = f.args
+                if not (la.vararg or la.kwarg or la.kwonlyargs or la.defaults) and len(la.args) == len(n.args):
+                    names = [x.arg for x in la.args]
+                    return normal._Subst(dict(zip(names, n.args))).visit(normal.clone(f.body))
+            return n
+    return B().visit(node)
 
 
 def fold_consts(node):
